@@ -59,12 +59,40 @@ pub enum E {
     Set(String, Box<E>),
     CSet(Op, String, Box<E>),
     Ret(Box<E>),
+    /// `Enum.Variant(args…)`: a value of a user-defined enum type (enum name, variant name, arguments)
+    Ctor(String, String, Vec<E>),
+    /// a variable of an enum type (name, enum name)
+    XVar(String, String),
+    /// a call of a function that returns a value of an enum type (function, arguments, enum name)
+    XCall(String, Vec<E>, String),
+    /// `match examinee { arm… }`: the examinee has an enum type; the arms' blocks all have the
+    /// type of the match (a scalar, unit, or an enum)
+    Match(Box<E>, Vec<Arm>),
+}
+
+/// `pattern [if guard] => body`; `pat = None` is `_`, otherwise the variant name and one
+/// variable (with the type of the field) per field of the variant
+#[derive(Clone, Debug)]
+pub struct Arm {
+    pub pat: Option<String>,
+    pub binds: Vec<(String, STy)>,
+    pub guard: Option<E>,
+    pub body: Blk,
 }
 
 #[derive(Clone, Debug)]
 pub enum S {
     Let(String, STy, bool, E), // name, type, annotated?, init
+    /// `let x[: Enum] = e;` for a value of an enum type (name, enum name, annotated?, init)
+    LetX(String, String, bool, E),
     Do(E),
+}
+
+/// `enum Name { Variant, Variant(ty, …), … }`; the fields are scalars
+#[derive(Clone, Debug, Default, PartialEq)]
+pub struct EnumDef {
+    pub name: String,
+    pub variants: Vec<(String, Vec<STy>)>,
 }
 
 #[derive(Clone, Debug, Default)]
@@ -76,13 +104,18 @@ pub struct Blk {
 #[derive(Clone, Debug)]
 pub struct Func {
     pub name: String,
+    /// parameters of enum types (name, enum name); they come first in the parameter list
+    pub xparams: Vec<(String, String)>,
     pub params: Vec<(String, STy)>,
     pub ret: STy,
+    /// `Some(enum name)`: the function returns a value of that enum type (`ret` is ignored)
+    pub xret: Option<String>,
     pub body: Blk,
 }
 
-#[derive(Clone, Debug)]
+#[derive(Clone, Debug, Default)]
 pub struct Prog {
+    pub enums: Vec<EnumDef>,
     pub fns: Vec<Func>,
 }
 
@@ -104,6 +137,19 @@ pub fn type_of(e: &E) -> Option<STy> {
         E::If(_, _, None) | E::While(..) | E::Set(..) | E::CSet(..) | E::Ret(_) => None,
         E::Block(b) => b.last.as_ref().and_then(|x| type_of(x)),
         E::Call(_, _, t) => Some(*t),
+        E::Ctor(..) | E::XVar(..) | E::XCall(..) => None,
+        E::Match(_, arms) => arms.first().and_then(|a| a.body.last.as_ref()).and_then(|x| type_of(x)),
+    }
+}
+
+/// the enum type of an expression, if it has one
+pub fn xtype_of(e: &E) -> Option<String> {
+    match e {
+        E::Ctor(en, _, _) | E::XVar(_, en) | E::XCall(_, _, en) => Some(en.clone()),
+        E::If(_, t, Some(_)) => t.last.as_ref().and_then(|x| xtype_of(x)),
+        E::Block(b) => b.last.as_ref().and_then(|x| xtype_of(x)),
+        E::Match(_, arms) => arms.first().and_then(|a| a.body.last.as_ref()).and_then(|x| xtype_of(x)),
+        _ => None,
     }
 }
 
@@ -145,7 +191,45 @@ pub fn src_expr(e: &E, o: &mut String) {
         E::Set(x, v) => { let _ = write!(o, "{x} = "); src_expr(v, o); }
         E::CSet(op, x, v) => { let _ = write!(o, "{x} {}= ", op.sym()); src_expr(v, o); }
         E::Ret(v) => { o.push_str("return "); src_expr(v, o); }
+        E::Ctor(en, k, args) => {
+            let _ = write!(o, "{en}.{k}");
+            if !args.is_empty() {
+                o.push('(');
+                for (i, a) in args.iter().enumerate() { if i > 0 { o.push_str(", "); } src_expr(a, o); }
+                o.push(')');
+            }
+        }
+        E::XVar(x, _) => o.push_str(x),
+        E::XCall(f, args, _) => {
+            o.push_str(f); o.push('(');
+            for (i, a) in args.iter().enumerate() { if i > 0 { o.push_str(", "); } src_expr(a, o); }
+            o.push(')');
+        }
+        E::Match(..) => { o.push('('); src_match(e, o); o.push(')'); }
     }
+}
+
+/// `match e { P => { … } P if g => { … } … }` (every arm body is printed as a block)
+fn src_match(e: &E, o: &mut String) {
+    let E::Match(x, arms) = e else { return };
+    o.push_str("match "); src_expr(x, o); o.push_str(" { ");
+    for a in arms {
+        match &a.pat {
+            None => o.push('_'),
+            Some(k) => {
+                o.push_str(k);
+                if !a.binds.is_empty() {
+                    let names: Vec<&str> = a.binds.iter().map(|(x, _)| x.as_str()).collect();
+                    let _ = write!(o, "({})", names.join(", "));
+                }
+            }
+        }
+        if let Some(g) = &a.guard { o.push_str(" if "); src_expr(g, o); }
+        o.push_str(" => ");
+        src_blk(&a.body, o);
+        o.push(' ');
+    }
+    o.push('}');
 }
 
 fn src_stmt(s: &S, o: &mut String) {
@@ -155,6 +239,12 @@ fn src_stmt(s: &S, o: &mut String) {
             src_expr(e, o);
             o.push_str("; ");
         }
+        S::LetX(x, en, ann, e) => {
+            if *ann { let _ = write!(o, "let {x}: {en} = "); } else { let _ = write!(o, "let {x} = "); }
+            src_expr(e, o);
+            o.push_str("; ");
+        }
+        S::Do(m @ E::Match(..)) => { src_match(m, o); o.push_str("; "); }
         // statement-level if / while are printed bare (the parser's statement forms)
         S::Do(E::If(c, t, e)) => {
             o.push_str("if "); src_expr(c, o); o.push(' '); src_blk(t, o);
@@ -175,9 +265,25 @@ pub fn src_blk(b: &Blk, o: &mut String) {
 
 pub fn source(p: &Prog) -> String {
     let mut o = String::new();
+    // the built-in `Option[T]` is not declared; its type is spelled `T?`
+    let ty_name = |en: &str| -> String {
+        if en == "Option" {
+            if let Some(d) = p.enums.iter().find(|d| d.name == "Option") { return format!("{}?", d.variants[1].1[0].name()); }
+        }
+        en.to_string()
+    };
+    for en in &p.enums {
+        if en.name == "Option" { continue; }
+        let vs: Vec<String> = en.variants.iter().map(|(k, fs)| {
+            if fs.is_empty() { k.clone() } else { format!("{k}({})", fs.iter().map(|t| t.name()).collect::<Vec<_>>().join(", ")) }
+        }).collect();
+        let _ = writeln!(o, "enum {} {{ {} }}", en.name, vs.join(", "));
+    }
     for f in &p.fns {
-        let ps: Vec<String> = f.params.iter().map(|(x, t)| format!("{x}: {}", t.name())).collect();
-        let _ = write!(o, "fn {}({}) -> {} ", f.name, ps.join(", "), f.ret.name());
+        let mut ps: Vec<String> = f.xparams.iter().map(|(x, en)| format!("{x}: {}", ty_name(en))).collect();
+        ps.extend(f.params.iter().map(|(x, t)| format!("{x}: {}", t.name())));
+        let ret = f.xret.as_ref().map(|en| ty_name(en)).unwrap_or_else(|| f.ret.name().to_string());
+        let _ = write!(o, "fn {}({}) -> {} ", f.name, ps.join(", "), ret);
         src_blk(&f.body, &mut o);
         o.push('\n');
     }
@@ -208,6 +314,35 @@ fn sx_expr(e: &E, o: &mut String) {
         E::Set(x, v) => { let _ = write!(o, "(set {x} "); sx_expr(v, o); o.push(')'); }
         E::CSet(op, x, v) => { let _ = write!(o, "(cset {} {x} ", op.name()); sx_expr(v, o); o.push(')'); }
         E::Ret(v) => { o.push_str("(ret "); sx_expr(v, o); o.push(')'); }
+        E::Ctor(en, k, args) => {
+            let _ = write!(o, "(ctor {en} {k}");
+            for a in args { o.push(' '); sx_expr(a, o); }
+            o.push(')');
+        }
+        E::XVar(x, _) => { let _ = write!(o, "(var {x})"); }
+        E::XCall(f, args, _) => {
+            let _ = write!(o, "(call {f}");
+            for a in args { o.push(' '); sx_expr(a, o); }
+            o.push(')');
+        }
+        E::Match(x, arms) => {
+            o.push_str("(match "); sx_expr(x, o);
+            for a in arms {
+                o.push_str(" (arm ");
+                match &a.pat {
+                    None => o.push_str("(wild)"),
+                    Some(k) => {
+                        let _ = write!(o, "(pat {k}");
+                        for (x, _) in &a.binds { let _ = write!(o, " {x}"); }
+                        o.push(')');
+                    }
+                }
+                if let Some(g) = &a.guard { o.push(' '); sx_expr(g, o); }
+                o.push(' '); sx_blk(&a.body, o);
+                o.push(')');
+            }
+            o.push(')');
+        }
     }
 }
 
@@ -216,7 +351,7 @@ fn sx_blk(b: &Blk, o: &mut String) {
     for (i, s) in b.stmts.iter().enumerate() {
         if i > 0 { o.push(' '); }
         match s {
-            S::Let(x, _, _, e) => { let _ = write!(o, "(let {x} "); sx_expr(e, o); o.push(')'); }
+            S::Let(x, _, _, e) | S::LetX(x, _, _, e) => { let _ = write!(o, "(let {x} "); sx_expr(e, o); o.push(')'); }
             S::Do(e) => { o.push_str("(do "); sx_expr(e, o); o.push(')'); }
         }
     }
@@ -229,11 +364,18 @@ pub fn sexp(p: &Prog) -> String {
     let mut o = String::from("(prog");
     for f in &p.fns {
         let _ = write!(o, " (fn {} (", f.name);
-        for (i, (x, t)) in f.params.iter().enumerate() {
-            if i > 0 { o.push(' '); }
+        let mut first = true;
+        for (x, en) in &f.xparams {
+            if !first { o.push(' '); }
+            first = false;
+            let _ = write!(o, "({x} {en})");
+        }
+        for (x, t) in &f.params {
+            if !first { o.push(' '); }
+            first = false;
             let _ = write!(o, "({x} {})", t.name());
         }
-        let _ = write!(o, ") {} ", f.ret.name());
+        let _ = write!(o, ") {} ", f.xret.clone().unwrap_or_else(|| f.ret.name().to_string()));
         sx_blk(&f.body, &mut o);
         o.push(')');
     }
@@ -267,6 +409,20 @@ pub fn constructs(p: &Prog) -> (BTreeMap<String, u64>, u32) {
             E::Set(_, v) => { hit("assign".into()); ex(v, d + 1, m, mx) }
             E::CSet(op, _, v) => { hit(format!("compound{}=", op.sym())); ex(v, d + 1, m, mx) }
             E::Ret(v) => { hit("return".into()); ex(v, d + 1, m, mx) }
+            E::Ctor(_, _, a) => { hit("enum-ctor".into()); for x in a { ex(x, d + 1, m, mx) } }
+            E::XVar(..) => hit("enum-var".into()),
+            E::XCall(_, a, _) => { hit("call".into()); for x in a { ex(x, d + 1, m, mx) } }
+            E::Match(x, arms) => {
+                hit("match".into());
+                if arms.iter().any(|a| a.pat.is_none()) { hit("match-wildcard".into()); }
+                if arms.iter().any(|a| a.guard.is_some()) { hit("match-guard".into()); }
+                if matches!(**x, E::Match(..)) || arms.iter().any(|a| blk_has_match(&a.body)) { hit("match-nested".into()); }
+                ex(x, d + 1, m, mx);
+                for a in arms {
+                    if let Some(g) = &a.guard { ex(g, d + 1, m, mx) }
+                    bl(&a.body, d + 1, m, mx);
+                }
+            }
         }
     }
     fn bl(b: &Blk, d: u32, m: &mut BTreeMap<String, u64>, mx: &mut u32) {
@@ -274,7 +430,7 @@ pub fn constructs(p: &Prog) -> (BTreeMap<String, u64>, u32) {
         for s in &b.stmts {
             if after_ret { *m.entry("dead-code-after-return".into()).or_insert(0) += 1; after_ret = false; }
             match s {
-                S::Let(_, _, ann, e) => {
+                S::Let(_, _, ann, e) | S::LetX(_, _, ann, e) => {
                     *m.entry(if *ann { "let-annotated".into() } else { "let".into() }).or_insert(0) += 1;
                     ex(e, d, m, mx)
                 }
@@ -292,10 +448,28 @@ pub fn constructs(p: &Prog) -> (BTreeMap<String, u64>, u32) {
     (m, mx)
 }
 
+/// does a block contain a `match` (at any depth)?
+pub fn blk_has_match(b: &Blk) -> bool {
+    fn ex(e: &E) -> bool {
+        match e {
+            E::Match(..) => true,
+            E::Lit { .. } | E::Var(..) | E::XVar(..) => false,
+            E::Neg(x) | E::Not(x) | E::Set(_, x) | E::CSet(_, _, x) | E::Ret(x) => ex(x),
+            E::Bin(_, l, r) => ex(l) || ex(r),
+            E::If(c, t, e) => ex(c) || blk_has_match(t) || e.as_ref().map(blk_has_match).unwrap_or(false),
+            E::While(c, b) => ex(c) || blk_has_match(b),
+            E::Block(b) => blk_has_match(b),
+            E::Call(_, a, _) | E::XCall(_, a, _) | E::Ctor(_, _, a) => a.iter().any(ex),
+        }
+    }
+    b.stmts.iter().any(|s| match s { S::Let(_, _, _, e) | S::LetX(_, _, _, e) | S::Do(e) => ex(e) })
+        || b.last.as_ref().map(|e| ex(e)).unwrap_or(false)
+}
+
 // ------------------------------------------------------------- interpreter
 
 #[derive(Clone, Debug, PartialEq)]
-pub enum V { I(STy, i128), F32(u32), F64(u64), B(bool), U }
+pub enum V { I(STy, i128), F32(u32), F64(u64), B(bool), U, En(String, Vec<V>) }
 
 #[derive(Debug)]
 pub enum Stop { Ret(V), Trap, Fuel, Stuck(String) }
@@ -313,6 +487,8 @@ pub struct RunStats {
     pub max_call_depth: u64,
     pub calls: u64,
     pub wraps: u64,
+    /// how each executed `match` ended: `variant-arm`, `wildcard-arm`; and every guard outcome
+    pub match_outcomes: Vec<&'static str>,
 }
 
 pub fn wrap(t: STy, x: i128) -> i128 {
@@ -337,6 +513,7 @@ pub fn v_bits(v: &V) -> (&'static str, u64) {
         V::F64(b) => ("f64", *b),
         V::B(b) => ("bool", *b as u64),
         V::U => ("unit", 0),
+        V::En(..) => ("enum", 0),
     }
 }
 
@@ -472,7 +649,8 @@ impl<'a> Interp<'a> {
                 let mut vs = vec![];
                 for a in args { vs.push(self.expr(env, a)?); }
                 let fd = self.prog.fns.iter().find(|x| &x.name == f).ok_or_else(|| Stop::Stuck(format!("no fn {f}")))?;
-                let mut cenv: Env = fd.params.iter().zip(vs).map(|((x, _), v)| (x.clone(), v)).collect();
+                let names = fd.xparams.iter().map(|(x, _)| x).chain(fd.params.iter().map(|(x, _)| x));
+                let mut cenv: Env = names.zip(vs).map(|(x, v)| (x.clone(), v)).collect();
                 self.depth += 1;
                 self.st.calls += 1;
                 self.st.max_call_depth = self.st.max_call_depth.max(self.depth);
@@ -497,6 +675,38 @@ impl<'a> Interp<'a> {
                 Ok(V::U)
             }
             E::Ret(v) => { let val = self.expr(env, v)?; self.st.early_returns += 1; Err(Stop::Ret(val)) }
+            E::Ctor(_, k, args) => {
+                let mut vs = vec![];
+                for a in args { vs.push(self.expr(env, a)?); }
+                Ok(V::En(k.clone(), vs))
+            }
+            E::XVar(x, _) => env.iter().rev().find(|(n, _)| n == x).map(|(_, v)| v.clone())
+                .ok_or_else(|| Stop::Stuck(format!("unbound {x}"))),
+            E::XCall(f, args, _) => self.expr(env, &E::Call(f.clone(), args.clone(), STy::Bool)),
+            E::Match(x, arms) => {
+                let V::En(k, fields) = self.expr(env, x)? else { return Err(Stop::Stuck("match on a non-enum".into())) };
+                for a in arms {
+                    if let Some(p) = &a.pat { if *p != k { continue; } }
+                    let depth = env.len();
+                    if a.pat.is_some() {
+                        if a.binds.len() != fields.len() { return Err(Stop::Stuck("pattern arity".into())); }
+                        for ((x, _), v) in a.binds.iter().zip(&fields) { env.push((x.clone(), v.clone())); }
+                    }
+                    if let Some(g) = &a.guard {
+                        match self.expr(env, g) {
+                            Ok(V::B(true)) => self.st.match_outcomes.push("guard-true"),
+                            Ok(V::B(false)) => { self.st.match_outcomes.push("guard-false"); env.truncate(depth); continue; }
+                            Ok(_) => return Err(Stop::Stuck("guard".into())),
+                            Err(s) => { env.truncate(depth); return Err(s); }
+                        }
+                    }
+                    self.st.match_outcomes.push(if a.pat.is_some() { "variant-arm" } else { "wildcard-arm" });
+                    let r = self.blk(env, &a.body);
+                    env.truncate(depth);
+                    return r;
+                }
+                Err(Stop::Stuck("no arm of the match applies".into()))
+            }
         }
     }
 
@@ -505,7 +715,7 @@ impl<'a> Interp<'a> {
         let r = (|| {
             for s in &b.stmts {
                 match s {
-                    S::Let(x, _, _, e) => { let v = self.expr(env, e)?; env.push((x.clone(), v)); }
+                    S::Let(x, _, _, e) | S::LetX(x, _, _, e) => { let v = self.expr(env, e)?; env.push((x.clone(), v)); }
                     S::Do(e) => { self.expr(env, e)?; }
                 }
             }
@@ -535,6 +745,17 @@ pub fn edit(p: &Prog, k: usize) -> Option<Prog> {
         }
         n -= 1;
     }
+    // drop an enum type that is not mentioned any more
+    let text = source(&Prog { enums: vec![], fns: p.fns.clone() });
+    for i in 0..q.enums.len() {
+        let name = &q.enums[i].name;
+        if text.contains(&format!("{name}.")) || text.contains(&format!(": {name}")) || text.contains(&format!("-> {name} ")) { continue; }
+        if n == 0 {
+            q.enums.remove(i);
+            return Some(q);
+        }
+        n -= 1;
+    }
     for f in q.fns.iter_mut() {
         if edit_blk(&mut f.body, &mut n) { return Some(q); }
     }
@@ -559,7 +780,7 @@ fn edit_blk(b: &mut Blk, n: &mut isize) -> bool {
         *n -= 1;
     }
     for s in b.stmts.iter_mut() {
-        let e = match s { S::Let(_, _, _, e) => e, S::Do(e) => e };
+        let e = match s { S::Let(_, _, _, e) | S::LetX(_, _, _, e) => e, S::Do(e) => e };
         if edit_expr(e, n) { return true; }
     }
     if let Some(e) = b.last.as_mut() { if edit_expr(e, n) { return true; } }
@@ -579,6 +800,7 @@ fn edit_expr(e: &mut E, n: &mut isize) -> bool {
                 E::Bin(_, l, r) => vec![(**l).clone(), (**r).clone()],
                 E::If(_, a, Some(b)) => vec![E::Block(a.clone()), E::Block(b.clone())],
                 E::Block(b) if b.stmts.is_empty() => b.last.iter().map(|x| (**x).clone()).collect(),
+                E::Match(_, arms) => arms.iter().map(|a| E::Block(a.body.clone())).collect(),
                 _ => vec![],
             };
             for kid in kids {
@@ -598,7 +820,30 @@ fn edit_expr(e: &mut E, n: &mut isize) -> bool {
         E::If(c, t, el) => edit_expr(c, n) || edit_blk(t, n) || el.as_mut().map(|b| edit_blk(b, n)).unwrap_or(false),
         E::While(c, b) => edit_expr(c, n) || edit_blk(b, n),
         E::Block(b) => edit_blk(b, n),
-        E::Call(_, args, _) => args.iter_mut().any(|a| edit_expr(a, n)),
+        E::Call(_, args, _) | E::XCall(_, args, _) | E::Ctor(_, _, args) => args.iter_mut().any(|a| edit_expr(a, n)),
+        E::XVar(..) => false,
+        E::Match(x, arms) => {
+            // drop an arm (the result may not type-check: the caller's predicate then rejects it),
+            // drop a guard, then edit the pieces
+            if arms.len() > 1 {
+                for i in 0..arms.len() {
+                    if *n == 0 { arms.remove(i); return true; }
+                    *n -= 1;
+                }
+            }
+            for a in arms.iter_mut() {
+                if a.guard.is_some() {
+                    if *n == 0 { a.guard = None; return true; }
+                    *n -= 1;
+                }
+            }
+            if edit_expr(x, n) { return true; }
+            for a in arms.iter_mut() {
+                if let Some(g) = a.guard.as_mut() { if edit_expr(g, n) { return true; } }
+                if edit_blk(&mut a.body, n) { return true; }
+            }
+            false
+        }
     }
 }
 
@@ -625,6 +870,12 @@ pub fn rename_levels(p: &Prog) -> Prog {
                     let name = format!("x{}", scope.len());
                     scope.push(x.clone());
                     stmts.push(S::Let(name, *t, *ann, e2));
+                }
+                S::LetX(x, en, ann, e) => {
+                    let e2 = expr(e, scope);
+                    let name = format!("x{}", scope.len());
+                    scope.push(x.clone());
+                    stmts.push(S::LetX(name, en.clone(), *ann, e2));
                 }
                 S::Do(e) => stmts.push(S::Do(expr(e, scope))),
             }
@@ -665,17 +916,36 @@ pub fn rename_levels(p: &Prog) -> Prog {
                 E::CSet(*op, var(scope, x), Box::new(v2))
             }
             E::Ret(v) => E::Ret(Box::new(expr(v, scope))),
+            E::Ctor(en, k, args) => E::Ctor(en.clone(), k.clone(), args.iter().map(|a| expr(a, scope)).collect()),
+            E::XVar(x, en) => E::XVar(var(scope, x), en.clone()),
+            E::XCall(f, args, en) => E::XCall(f.clone(), args.iter().map(|a| expr(a, scope)).collect(), en.clone()),
+            E::Match(x, arms) => {
+                let x2 = expr(x, scope);
+                let arms2 = arms.iter().map(|a| {
+                    let depth = scope.len();
+                    let mut binds = vec![];
+                    for (b, t) in &a.binds { binds.push((format!("x{}", scope.len()), *t)); scope.push(b.clone()); }
+                    let guard = a.guard.as_ref().map(|g| expr(g, scope));
+                    let body = blk(&a.body, scope);
+                    scope.truncate(depth);
+                    Arm { pat: a.pat.clone(), binds, guard, body }
+                }).collect();
+                E::Match(Box::new(x2), arms2)
+            }
         }
     }
     Prog {
+        enums: p.enums.clone(),
         fns: p
             .fns
             .iter()
             .map(|f| {
-                let mut scope: Vec<String> = f.params.iter().map(|(x, _)| x.clone()).collect();
-                let params = f.params.iter().enumerate().map(|(i, (_, t))| (format!("x{i}"), *t)).collect();
+                let nx = f.xparams.len();
+                let mut scope: Vec<String> = f.xparams.iter().map(|(x, _)| x.clone()).chain(f.params.iter().map(|(x, _)| x.clone())).collect();
+                let xparams = f.xparams.iter().enumerate().map(|(i, (_, en))| (format!("x{i}"), en.clone())).collect();
+                let params = f.params.iter().enumerate().map(|(i, (_, t))| (format!("x{}", nx + i), *t)).collect();
                 let body = blk(&f.body, &mut scope);
-                Func { name: f.name.clone(), params, ret: f.ret, body }
+                Func { name: f.name.clone(), xparams, params, ret: f.ret, xret: f.xret.clone(), body }
             })
             .collect(),
     }
